@@ -131,6 +131,11 @@ def evaluate(mod, case, ctx, findings, reported, raise_=True):
         ctx.nontrivial_hashes.add(case_hash(case))
         if len(ctx.samples) < 3 and ctx.evaluations % ctx._sample_every == 0:
             ctx.samples.append(case)
+    return judge(mod, case, items, ctx, findings, reported, raise_)
+
+
+def judge(mod, case, items, ctx, findings, reported, raise_=True):
+    """known-finding filtering, bucketing, duplicate suppression, shrink cap; raises Violation"""
     items = filter_known(mod, case, items, findings, ctx)
     if not items:
         return []
